@@ -108,7 +108,11 @@ def generate(seed: int, config: str, tier: str) -> Dict[str, Any]:
         n_parts = 1 if rng.random() < 0.45 else rng.randint(2, 4)
         parts = gen_query.gen_queries(rng, _SCRATCH_ENV, d, n_parts, ctx_doc=ctxdoc, opts=opts, p_compound=0.0)
         ops = [rng.choice("|&" if want_amp else "|") for _ in range(n_parts - 1)]
-        queries.append({"parts": parts, "ops": ops})
+        q = {"parts": parts, "ops": ops}
+        if not gen_query.compiles(_SCRATCH_ENV, qtext(q)):
+            # every operand compiles alone but the joined text does not (e.g. a quoted name ending in a backslash)
+            q = {"parts": parts[:1], "ops": []}
+        queries.append(q)
     calls: List[Dict[str, Any]] = []
     for _ in range(rng.randint(2, 20 if tier == "thorough" else 12)):
         method = rng.choice(METHODS)
